@@ -13,8 +13,9 @@ if ! git diff --quiet; then echo "$R is dirty"; exit 2; fi
 git apply "$patch" || { echo "patch does not apply"; exit 2; }
 # evidence files written while /repo is mutated must not survive: keep the clean-tree ones
 EV=/tmp/mutcheck.evidence.$$
-rm -rf $EV && cp -r "$V/evidence" $EV
-trap 'git -C "$R" checkout -- . ; git -C "$R" clean -fdq; rm -rf "$V/evidence"; mv $EV "$V/evidence"' EXIT
+rm -rf $EV $EV.extra && cp -r "$V/evidence" $EV
+[ -d "$V/extra" ] && cp -r "$V/extra" $EV.extra   # evidence of EXTRA (DESIGN.md §9.5) lives outside evidence/
+trap 'git -C "$R" checkout -- . ; git -C "$R" clean -fdq; rm -rf "$V/evidence"; mv $EV "$V/evidence"; if [ -d $EV.extra ]; then rm -rf "$V/extra"; mv $EV.extra "$V/extra"; fi' EXIT
 if go build ./... 2>/tmp/mutcheck.build.$$.log && go test -vet=off -count=1 ./... >/tmp/mutcheck.test.$$.log 2>&1; then
   echo "build+tests: ok"
 else
